@@ -112,6 +112,20 @@ def _run_config(prop, cfg, tag, simulate=None):
     mism, leaves, steps, compared, hookv = engine.replay_all(cfg, expect)
     cands = []
     seen_h = set()
+    # results of switch_device(strict=False): TLC judges the real state against the new device
+    sw_states = [(key, d) for pred, key, d in hookv if pred == "STATE.NonStrict"]
+    hookv = [h for h in hookv if h[0] != "STATE.NonStrict"]
+    if sw_states:
+        traces = [{"init": d["state"], "steps": []} for _, d in sw_states]
+        sres, sreports = engine.trace_check(cfg, traces, os.path.join(work, "switch_states"))
+        if not sres.ok:
+            print(f"MACHINERY-FAILURE: state validation failed on {tag}: {sres.errors[:3]}")
+            print("\n".join(sres.tail[-30:]))
+            sys.exit(2)
+        for r in sreports:
+            key, d = sw_states[r["t"] - 1]
+            hookv.append(("C18.NonStrictWithinLimits", key,
+                          {"clause": "result_outside_limits", "variant": d["variant"], "violated": sorted(r["v"])[0]}))
     for pred, key, detail in hookv:
         if (pred, key) in seen_h:
             continue
